@@ -734,6 +734,9 @@ class TupimageTerminal:
         if self._config.redetect_terminal:
             self.detect_terminal()
         if force_upload or self.needs_uploading(inst.id):
+            # Forget the previous upload first: a transmission that fails midway may have
+            # already replaced the image in the terminal.
+            self.id_manager.unmark_uploaded(inst.id, self._terminal_id)
             size = self._upload(
                 inst, check_response=check_response, upload_method=upload_method
             )
